@@ -132,7 +132,7 @@ CLAIMED = {
    design_ref="DESIGN.md §6 C20"),
 }
 ALL = ["C%02d" % i for i in range(1, 21)]
-PENDING = {"C20"}   # built, not yet green on the unchanged tree within the quick budget
+PENDING = set()
 for _p in PENDING:
     CLAIMED.pop(_p, None)
 
